@@ -56,27 +56,27 @@ def sh(cmd, *, cwd=None, env=None, timeout=None, stdin=None, check=True, capture
 _built = {}
 
 
-def build_rs():
-    """Build the rs1090 harness (path dependency on /repo/crates/rs1090, hooks on)."""
-    if "rs" in _built:
-        return _built["rs"]
+def build_rs(binname):
+    """Build one binary of the rs1090 harness (path dependency on /repo/crates/rs1090, hooks on)."""
+    if ("rs", binname) in _built:
+        return _built[("rs", binname)]
     hdir = os.path.join(VERIF, "harness", "rsdriver")
     lock_src = os.path.join(REPO, "Cargo.lock")
     lock_dst = os.path.join(hdir, "Cargo.lock")
     if not os.path.exists(lock_dst):
         shutil.copy(lock_src, lock_dst)
     t0 = time.time()
-    p = sh(["cargo", "build", "--offline", "--release"], cwd=hdir, check=False, timeout=1800,
-           env={"CARGO_TARGET_DIR": os.path.join(BUILD, "rs")})
+    cmd = ["cargo", "build", "--offline", "--release", "--bin", binname]
+    env = {"CARGO_TARGET_DIR": os.path.join(BUILD, "rs")}
+    p = sh(cmd, cwd=hdir, check=False, timeout=1800, env=env)
     if p.returncode != 0 and "lock file" in (p.stdout or ""):
         shutil.copy(lock_src, lock_dst)
-        p = sh(["cargo", "build", "--offline", "--release"], cwd=hdir, check=False, timeout=1800,
-               env={"CARGO_TARGET_DIR": os.path.join(BUILD, "rs")})
+        p = sh(cmd, cwd=hdir, check=False, timeout=1800, env=env)
     if p.returncode != 0:
         raise ToolError("harness build failed (does /repo still compile?)\n" + (p.stdout or "")[-6000:])
-    log(f"built rsdriver in {time.time()-t0:.1f}s")
-    _built["rs"] = os.path.join(BUILD, "rs", "release", "rsdriver")
-    return _built["rs"]
+    log(f"built rsdriver/{binname} in {time.time()-t0:.1f}s")
+    _built[("rs", binname)] = os.path.join(BUILD, "rs", "release", binname)
+    return _built[("rs", binname)]
 
 
 def build_jet():
@@ -94,8 +94,9 @@ def build_jet():
     return _built["jet"]
 
 
-def run_rs(args, *, stdin=None, timeout=3600, check=True):
-    exe = build_rs()
+def run_rs(binname, args, *, stdin=None, timeout=3600, check=True):
+    """Run harness binary src/bin/<binname>.rs (rebuilt from /repo's working tree first)."""
+    exe = build_rs(binname)
     return sh([exe] + list(map(str, args)), stdin=stdin, timeout=timeout, check=check)
 
 
